@@ -19,7 +19,7 @@ build() { # $1 = output name, extra flags follow
   mv -f "$out.tmp.$$" "$out"
 }
 
-needs_race() { case "$1" in C10|C16|C07) return 0;; *) return 1;; esac; }
+needs_race() { case "$1" in C10|C16) return 0;; *) return 1;; esac; }
 
 if [ "${1:-}" = "--build" ]; then
   build "$BIN/lwmon" || { echo "BUILD FAILED"; exit 2; }
